@@ -872,13 +872,14 @@ func buildAnchors(o Opts) []*Anchor {
 	b.mgamma()
 	b.round2()
 	b.round3()
+	b.round5()
 	return b.as
 }
 
 const anchorHeader = `From Coq Require Import Reals ZArith QArith List.
 From Coquelicot Require Import Coquelicot.
 From Interval Require Import Tactic.
-From ADV Require Import Base.Num C13.Model C13.Spec C13.Spec2 C13.Spec3 C13.Anchors C13.Anchors2.
+From ADV Require Import Base.Num C13.Model C13.Spec C13.Spec2 C13.Spec3 C13.Spec4 C13.Anchors C13.Anchors2 C13.Anchors4.
 Open Scope R_scope.
 `
 
